@@ -17,7 +17,7 @@ EXPLANATION = (
     "[JSON-TYPES] to_json passes the object graph to orjson with a default hook that renders bytes/bytearray as hex and timedelta as seconds and raises "
     "TypeError otherwise; the producers of value/raw_value return only int, float, str, bytes, date, time, None (helper return inventory). "
     "[JSON-BACK] from_json rebuilds the message and every field object; [JSON-RAW-FIRST] every generated encoder producer whose displayed value is "
-    "not JSON-native (DATE, TIME/DURATION) or is a lookup name prefers raw_value. UNDECIDED: value equality after the round trip (floats, NaN, "
+    "not JSON-native (DATE, TIME/DURATION) or is a lookup name prefers raw_value. to_json, its default hook and from_json are interpreted over abstract values (what is handed to orjson.dumps; the hook on bytes / bytearray / timedelta / another class; NMEA2000Message(**d) with fields rebuilt as NMEA2000Field(**f) in order). UNDECIDED: value equality after the round trip (floats, NaN, "
     "non-ASCII), enum/identity reconstruction."
 )
 ASSUMPTIONS = ["CPython ast parser", "orjson natively serialises str/int/float/bool/None/list/dict/dataclass/datetime/date/time/enum and calls `default` for anything else",
